@@ -16,6 +16,7 @@ import (
 
 	"verif/harness/av"
 	"verif/harness/rec"
+	"verif/harness/vcmp"
 	"verif/harness/zoo"
 )
 
@@ -28,8 +29,19 @@ var poolKinds = []string{"EncoderPool", "DecoderPool", "SerializerPool"}
 
 var poolProbe = &zoo.Nested{V: zoo.Inner{A: 5, S: "x"}, P: &zoo.Inner{A: 7, S: "pooled"}, N: 3}
 
-func newPool(kind string, size int) (hessian.Pool, map[string]reflect.Type, map[string]string) {
+// newPool builds a pool; withMaps=false builds it without maps (nil), in which case every
+// object the pool creates has maps of its own, like a newly constructed instance.
+func newPool(kind string, size int, withMaps bool) (hessian.Pool, map[string]reflect.Type, map[string]string) {
 	tm, nm := hessian.ExtractTypeNameMap(poolProbe)
+	if !withMaps {
+		switch kind {
+		case "EncoderPool":
+			return hessian.NewEncoderPool(size, nil), nil, nil
+		case "DecoderPool":
+			return hessian.NewDecoderPool(size, nil), nil, nil
+		}
+		return hessian.NewSerializerPool(size, nil, nil), nil, nil
+	}
 	switch kind {
 	case "EncoderPool":
 		return hessian.NewEncoderPool(size, nm), tm, nm
@@ -42,6 +54,9 @@ func newPool(kind string, size int) (hessian.Pool, map[string]reflect.Type, map[
 // usable: an object from the pool encodes / decodes the probe exactly as a newly
 // constructed instance does.
 func usable(kind string, o interface{}, tm map[string]reflect.Type, nm map[string]string) string {
+	if tm == nil && nm == nil {
+		return usableNoMaps(kind, o)
+	}
 	want, err := hessian.ToBytes(poolProbe, nm)
 	if err != nil {
 		return "harness: probe does not encode: " + err.Error()
@@ -85,6 +100,79 @@ func usable(kind string, o interface{}, tm map[string]reflect.Type, nm map[strin
 	return ""
 }
 
+// usableNoMaps: an object from a pool built without maps behaves exactly like an instance
+// newly constructed without maps (in particular it knows nothing another holder registered).
+func usableNoMaps(kind string, o interface{}) string {
+	_, fullNM := hessian.ExtractTypeNameMap(poolProbe)
+	wire, err := hessian.ToBytes(poolProbe, fullNM)
+	if err != nil {
+		return "harness: probe does not encode: " + err.Error()
+	}
+	sameDec := func(got interface{}, gerr error) string {
+		want, werr := hessian.NewDecoder(nil, nil).Decode(wire)
+		if (gerr != nil) != (werr != nil) {
+			return fmt.Sprintf("pooled decoder built without a type map: err=%v, a new one: err=%v", gerr, werr)
+		}
+		if gerr == nil {
+			if cerr := vcmp.EqualValues(want, got); cerr != nil {
+				return fmt.Sprintf("pooled decoder built without a type map decodes differently from a new one: %v", cerr)
+			}
+		}
+		return ""
+	}
+	sameEnc := func(got []byte, gerr error) string {
+		want, werr := hessian.NewEncoder(nil, nil).Encode(poolProbe)
+		if (gerr != nil) != (werr != nil) || !bytes.Equal(got, want) {
+			return fmt.Sprintf("pooled encoder built without a name map: err=%v bytes %s, a new one: err=%v bytes %s", gerr, hexClip(got, 48), werr, hexClip(want, 48))
+		}
+		return ""
+	}
+	switch kind {
+	case "EncoderPool":
+		e, ok := o.(*hessian.Encoder)
+		if !ok || e == nil {
+			return fmt.Sprintf("EncoderPool.Get returned %T", o)
+		}
+		return sameEnc(e.Encode(poolProbe))
+	case "DecoderPool":
+		d, ok := o.(*hessian.Decoder)
+		if !ok || d == nil {
+			return fmt.Sprintf("DecoderPool.Get returned %T", o)
+		}
+		return sameDec(d.Decode(wire))
+	default:
+		s, ok := o.(hessian.Serializer)
+		if !ok || s == nil {
+			return fmt.Sprintf("SerializerPool.Get returned %T", o)
+		}
+		if m := sameEnc(s.ToBytes(poolProbe)); m != "" {
+			return m
+		}
+		return sameDec(s.ToObject(wire))
+	}
+}
+
+// registerOn registers custom entries on one pooled object (only used on pools built without
+// maps, where the object's maps are its own).
+func registerOn(kind string, o interface{}) bool {
+	tm, nm := hessian.ExtractTypeNameMap(poolProbe)
+	switch kind {
+	case "EncoderPool":
+		e := o.(*hessian.Encoder)
+		e.RegisterNameType("Nested", "custom.Nested")
+		e.RegisterNameType("Inner", "custom.Inner")
+		return true
+	case "DecoderPool":
+		d := o.(*hessian.Decoder)
+		for k, v := range tm {
+			d.RegisterType(k, v)
+		}
+		_ = nm
+		return true
+	}
+	return false
+}
+
 func objID(o interface{}) uintptr {
 	v := reflect.ValueOf(o)
 	if v.Kind() == reflect.Ptr {
@@ -120,7 +208,7 @@ func callNonBlocking(name string, op func()) string {
 		parked := 0
 		for i := 0; i < 50; i++ {
 			s := goroutineState(id)
-			if strings.HasPrefix(s, "chan send") || strings.HasPrefix(s, "chan receive") || strings.HasPrefix(s, "select") {
+			if isParkedState(s) {
 				parked++
 			}
 			select {
@@ -135,6 +223,17 @@ func callNonBlocking(name string, op func()) string {
 			return fmt.Sprintf("%s blocks: its goroutine stays parked in [%s] with no other pool user", name, st)
 		}
 	}
+}
+
+// isParkedState: wait states out of which a goroutine only comes when another goroutine acts
+// (channel operations, select, mutexes, condition variables, wait groups; a sleep or timer wait is not one).
+func isParkedState(s string) bool {
+	for _, p := range []string{"chan send", "chan receive", "select", "sync.Mutex.Lock", "sync.RWMutex", "semacquire", "sync.Cond.Wait", "sync.WaitGroup.Wait"} {
+		if strings.HasPrefix(s, p) {
+			return true
+		}
+	}
+	return false
 }
 
 func curGoroutine() string {
@@ -169,9 +268,12 @@ func TestC17(t *testing.T) {
 	check(t, "C17", func(rt *rapid.T, c *caseInfo) {
 		kind := rapid.SampledFrom(poolKinds).Draw(rt, "pool")
 		size := rapid.IntRange(0, 8).Draw(rt, "size")
-		pool, tm, nm := newPool(kind, size)
+		withMaps := rapid.IntRange(0, 3).Draw(rt, "builtWithMaps") != 0
+		pool, tm, nm := newPool(kind, size, withMaps)
 		c.set("pool", kind)
 		c.set("size", size)
+		c.set("builtWithMaps", withMaps)
+		custom := map[uintptr]bool{} // objects a holder registered entries of its own on
 		held := map[uintptr]interface{}{}
 		idle := map[uintptr]bool{} // returned and not handed out again: may sit in the pool
 		seen := map[uintptr]interface{}{} // keeps every object alive: an address is never reused
@@ -239,10 +341,28 @@ func TestC17(t *testing.T) {
 					rt.Skip("nothing held")
 				}
 				id := order[rapid.IntRange(0, len(order)-1).Draw(rt, "which")]
+				if custom[id] {
+					held2 := held[id]
+					guard(func() { usable(kind, held2, tm, nm) }) // customised by its holder: exercised, not compared
+					hist = append(hist, "use:customised")
+					return
+				}
 				if msg := usable(kind, held[id], tm, nm); msg != "" {
 					failf(rt, c, "C17 %s(size %d): held object not usable: %s; history %v", kind, size, msg, hist)
 				}
 				hist = append(hist, "use")
+			},
+			"register": func(*rapid.T) {
+				// a holder registers entries on the object it holds; the pool was built without maps, so the
+				// object's maps are its own and no other object may learn of it
+				if withMaps || len(order) == 0 || kind == "SerializerPool" {
+					rt.Skip("not applicable")
+				}
+				id := order[rapid.IntRange(0, len(order)-1).Draw(rt, "which")]
+				if registerOn(kind, held[id]) {
+					custom[id] = true
+					hist = append(hist, "register")
+				}
 			},
 		})
 		// drain: the pool may hand back at most `size` of the idle objects, each once,
@@ -273,6 +393,12 @@ func TestC17(t *testing.T) {
 		r.Eval()
 		r.Label("pool:" + kind)
 		r.Label(fmt.Sprintf("size:%d", size))
+		if !withMaps {
+			r.Label("pool built without maps")
+		}
+		if len(custom) > 0 {
+			r.Label("a holder registered on its object")
+		}
 		if returnOnFull || getOnEmpty {
 			r.NonTrivial(av.Hash(kind + fmt.Sprint(size, hist)))
 		}
@@ -282,7 +408,7 @@ func TestC17(t *testing.T) {
 		if getOnEmpty {
 			r.Label("get-on-empty")
 		}
-		r.Sample(func() interface{} { return map[string]interface{}{"pool": kind, "size": size, "history": strings.Join(hist, " ")} })
+		r.Sample(func() interface{} { return map[string]interface{}{"pool": kind, "size": size, "built_with_maps": withMaps, "history": strings.Join(hist, " ")} })
 	})
 	if t.Failed() {
 		return
@@ -295,7 +421,7 @@ func TestC17(t *testing.T) {
 		kind := poolKinds[rng.next()%3]
 		size := 1 + int(rng.next()%4)
 		n := []int{4, 16, 64}[rng.next()%3]
-		pool, _, _ := newPool(kind, size)
+		pool, _, _ := newPool(kind, size, true)
 		objs := make([]interface{}, size+n)
 		for i := range objs {
 			objs[i] = pool.Get()
@@ -320,7 +446,7 @@ func TestC17(t *testing.T) {
 			directFail(t, "C17", map[string]interface{}{"pool": kind, "size": size, "goroutines": n, "phase": "burst-return"}, "C17 %s(size %d), %d simultaneous Returns on a full pool: %s", kind, size, n, msg)
 		}
 		// same for Gets on an empty pool
-		pool2, _, _ := newPool(kind, size)
+		pool2, _, _ := newPool(kind, size, true)
 		var wg2 sync.WaitGroup
 		start2 := make(chan struct{})
 		for g := 0; g < n; g++ {
@@ -336,16 +462,77 @@ func TestC17(t *testing.T) {
 		r.EvalN(int64(2 * n))
 		r.NonTrivial(av.Hash(fmt.Sprint("burst", kind, size, n, round)))
 		r.Label("burst:return-on-full+get-on-empty")
+		// Gets released at the same instant (spin barrier) on a pool that holds k <= size objects: every
+		// getter must come back with an object of its own, at most k of them old ones
+		gn := []int{2, 3, 4, 8}[rng.next()%4]
+		for sub := 0; sub < rec.EnvInt("VERIF_C17_SUBROUNDS", 150); sub++ {
+			pool3, _, _ := newPool(kind, size, true)
+			k := 1 + int(rng.next()%uint64(size))
+			olds := map[uintptr]interface{}{}
+			tmp := make([]interface{}, k)
+			for i := range tmp {
+				tmp[i] = pool3.Get()
+				olds[objID(tmp[i])] = tmp[i]
+			}
+			for _, o := range tmp {
+				pool3.Return(o)
+			}
+			got := make([]interface{}, gn)
+			var ready, goFlag int32
+			var wg3 sync.WaitGroup
+			for g := 0; g < gn; g++ {
+				wg3.Add(1)
+				go func(g int) {
+					defer wg3.Done()
+					atomic.AddInt32(&ready, 1)
+					for atomic.LoadInt32(&goFlag) == 0 {
+						runtime.Gosched() // never a bare spin: under the race detector it is not preemptible
+					}
+					got[g] = pool3.Get()
+				}(g)
+			}
+			for atomic.LoadInt32(&ready) < int32(gn) {
+				runtime.Gosched()
+			}
+			atomic.StoreInt32(&goFlag, 1)
+			done3 := make(chan struct{})
+			go func() { wg3.Wait(); close(done3) }()
+			if msg := waitOrParked(done3, "burst of Gets on a filled pool"); msg != "" {
+				directFail(t, "C17", map[string]interface{}{"pool": kind, "size": size, "goroutines": gn, "phase": "burst-get-filled"}, "C17 %s(size %d), %d simultaneous Gets on a pool holding %d: %s", kind, size, gn, k, msg)
+			}
+			ids := map[uintptr]bool{}
+			nOld := 0
+			for _, o := range got {
+				id := objID(o)
+				if o == nil || ids[id] {
+					directFail(t, "C17", map[string]interface{}{"pool": kind, "size": size, "goroutines": gn, "held_by_pool": k, "phase": "burst-get-filled"}, "C17 %s(size %d): %d simultaneous Gets on a pool holding %d objects: one object was handed to two callers at once (sub-round %d)", kind, size, gn, k, sub)
+				}
+				ids[id] = true
+				if olds[id] != nil {
+					nOld++
+				}
+			}
+			if nOld > k {
+				directFail(t, "C17", map[string]interface{}{"pool": kind, "size": size, "goroutines": gn, "phase": "burst-get-filled"}, "C17 %s(size %d): %d old objects came out of a pool that held %d", kind, size, nOld, k)
+			}
+			r.EvalN(int64(gn))
+		}
+		r.NonTrivial(av.Hash(fmt.Sprint("burst-filled", kind, size, gn, round)))
+		r.Label(fmt.Sprintf("burst:simultaneous-gets-on-filled-pool size=%d", size))
 	}
 	// ---------------- concurrent: ownership table under the race detector
 	rounds := rec.EnvInt("VERIF_C17_ROUNDS", 30)
 	rng := seedFor("C17")
 	for round := 0; round < rounds; round++ {
 		kind := poolKinds[rng.next()%3]
-		size := int(rng.next() % 9)
+		size := []int{0, 1, 1, 1, 2, 2, 3, 4, 8}[rng.next()%9]
 		n := []int{1, 2, 4, 8, 16, 64}[rng.next()%6]
 		iters := 200
-		pool, tm, nm := newPool(kind, size)
+		if size <= 2 && n <= 16 {
+			iters = 1500 // few slots, many takers: the contended case
+		}
+		withMaps := rng.next()%4 != 0
+		pool, tm, nm := newPool(kind, size, withMaps)
 		var owners sync.Map // id -> *int32
 		var firstErr atomic.Value
 		var wg sync.WaitGroup
@@ -406,6 +593,10 @@ func TestC17(t *testing.T) {
 		r.EvalN(int64(n * iters))
 		r.NonTrivial(av.Hash(fmt.Sprint("conc", kind, size, n, round)))
 		r.Label(fmt.Sprintf("concurrent:goroutines=%d", n))
+		r.Label(fmt.Sprintf("concurrent:size=%d", size))
+		if !withMaps {
+			r.Label("concurrent:pool built without maps")
+		}
 	}
 }
 
@@ -426,9 +617,13 @@ func waitOrParked(done chan struct{}, what string) string {
 			if !strings.Contains(blk, "c17_test.go") || !strings.Contains(blk, "TestC17.func") {
 				continue
 			}
-			if strings.Contains(blk, "gohessian.(*objectPool)") && (strings.Contains(blk, "[chan send") || strings.Contains(blk, "[chan receive") || strings.Contains(blk, "[select")) {
-				blocked++
-			} else if !strings.Contains(blk, "[chan receive") && !strings.Contains(blk, "[semacquire") && !strings.Contains(blk, "[select") {
+			state := ""
+			if i, j := strings.Index(blk, "["), strings.Index(blk, "]"); i >= 0 && j > i {
+				state = blk[i+1 : j]
+			}
+			if strings.Contains(blk, "gohessian.") && isParkedState(state) {
+				blocked++ // parked inside library code on something only another goroutine can release
+			} else if !isParkedState(state) {
 				active++
 			}
 		}
